@@ -562,3 +562,92 @@ Proof.
     by (symmetry; apply Z.ltb_lt; lia).
   cbn [andb]. apply Z.eqb_eq. lia.
 Qed.
+
+(* ---------- the encrypted part of a response: NewResponsePacket, then authenticate's walk ---------- *)
+
+Lemma walk_step_cookie pt pre post v fuel acc :
+  pt = pre ++ ext_field ext_cookie v ++ post -> (length pt <= 1024)%nat ->
+  (28 <= 4 + pad4len (length v) + length post)%nat ->
+  nts_auth_walk (S fuel) pt (length pre) acc =
+  nts_auth_walk fuel pt (length (pre ++ ext_field ext_cookie v)) (acc ++ [ext_of ext_cookie v]).
+Proof.
+  intros Hb Hs Hm.
+  destruct (step_facts pt pre post v ext_cookie Hb) as (H1 & H2 & H3 & H4 & H5 & H6);
+    [unfold ext_cookie; lia | exact Hs | exact Hm |].
+  cbn [nts_auth_walk]. rewrite H5, H1, H2, H6.
+  change (ext_cookie =? ext_cookie) with true. cbv iota. rewrite H3, H4. reflexivity.
+Qed.
+
+Lemma walk_cookies cs : forall pt pre fuel acc,
+  pt = pre ++ flat_map (ext_field ext_cookie) cs -> (length pt <= 1024)%nat ->
+  Forall (fun c => (24 <= length c)%nat) cs ->
+  nts_auth_walk (length cs + fuel) pt (length pre) acc = (acc ++ map (ext_of ext_cookie) cs, d_ok).
+Proof.
+  induction cs as [|c cs IH]; intros pt pre fuel acc Hb Hs Hl.
+  - cbn [flat_map] in Hb. rewrite app_nil_r in Hb. subst pt. cbn [map length Nat.add]. rewrite app_nil_r.
+    destruct fuel; cbn [nts_auth_walk]; rewrite Nat.sub_diag; reflexivity.
+  - pose proof (Forall_inv Hl) as Hc. pose proof (Forall_inv_tail Hl) as Hcs. cbn beta in Hc.
+    cbn [flat_map] in Hb. cbn [length Nat.add].
+    pose proof (pad4len_ge (length c)) as [Hp _].
+    rewrite (walk_step_cookie pt pre (flat_map (ext_field ext_cookie) cs) c) by (auto; lia).
+    rewrite (IH pt (pre ++ ext_field ext_cookie c) fuel) by (auto; rewrite Hb, <- app_assoc; reflexivity).
+    cbn [map]. rewrite <- app_assoc. reflexivity.
+Qed.
+
+Lemma flat_equal_len cs l : Forall (fun c => length c = l) cs -> (l mod 4 = 0)%nat ->
+  length (flat_map (ext_field ext_cookie) cs) = (length cs * (4 + l))%nat.
+Proof.
+  intros H Hm. assert (Hp : pad4len l = l).
+  { unfold pad4len. apply Nat.mod_divides in Hm; [|lia]. destruct Hm as [q ->].
+    replace (4 * q + 3)%nat with (3 + q * 4)%nat by lia. rewrite Nat.div_add by lia. simpl. lia. }
+  induction H as [|c cs Hc Hcs IH]; [reflexivity|]. cbn [flat_map length]. rewrite app_length, ext_field_length, IH, Hc, Hp. lia.
+Qed.
+
+(* a server's cookies (one length, a multiple of 4, at least 24 bytes, at least one of them
+   fitting a packet): the plaintext NewResponsePacket builds is their extension fields, cut to
+   what fits; the receiver's walk over it returns exactly these cookies, in order, as cookies *)
+Theorem nts_response_roundtrip c0 cs idlen acc :
+  let cookies := c0 :: cs in
+  let l := length c0 in
+  Forall (fun c => length c = l) cookies -> (l mod 4 = 0)%nat -> (24 <= l)%nat ->
+  (1 <= max_cookies idlen l)%nat ->
+  let sent := firstn (Nat.min (length cookies) (max_cookies idlen l)) cookies in
+  exists plain, nts_response_plain cookies idlen = Ok plain /\
+    plain = flat_map (ext_field ext_cookie) sent /\
+    nts_auth_walk (length plain) plain 0 acc = (acc ++ map (ext_of ext_cookie) sent, d_ok).
+Proof.
+  intros cookies l Hall Hm Hl Hfit sent.
+  set (n := max_cookies idlen l) in *.
+  assert (Hsent : sent = if (1 <=? n)%nat && (n <? length cookies)%nat then firstn n cookies else cookies).
+  { unfold sent. destruct (Nat.leb_spec 1 n) as [_|H]; [|lia]. cbn [andb].
+    destruct (Nat.ltb_spec n (length cookies)) as [H|H].
+    - replace (Nat.min (length cookies) n) with n by lia. reflexivity.
+    - replace (Nat.min (length cookies) n) with (length cookies) by lia. apply firstn_all. }
+  assert (Hsub : exists tl, cookies = sent ++ tl).
+  { exists (skipn (Nat.min (length cookies) n) cookies). unfold sent. symmetry. apply firstn_skipn. }
+  destruct Hsub as [tl Htl].
+  assert (Hall' : Forall (fun c => length c = l) sent).
+  { rewrite Htl in Hall. apply Forall_app in Hall. tauto. }
+  assert (Hk : (length sent <= n)%nat) by (unfold sent; rewrite firstn_length; lia).
+  pose proof (flat_equal_len sent l Hall' Hm) as Hflen.
+  assert (Hp : pad4len l = l).
+  { unfold pad4len. apply Nat.mod_divides in Hm; [|lia]. destruct Hm as [q Hq]. rewrite Hq.
+    replace (4 * q + 3)%nat with (3 + q * 4)%nat by lia. rewrite Nat.div_add by lia. simpl. lia. }
+  (* n * (4 + l) stays below the packet size *)
+  assert (Hn : (n * (4 + l) <= 1024)%nat).
+  { unfold n, max_cookies, max_packet_len, ntp_hdr_len. rewrite Hp.
+    set (a := (1024 - 48 - (4 + pad4len idlen) - 40)%nat).
+    pose proof (Nat.mul_div_le a (4 + l)) as H. assert (a <= 1024)%nat by (unfold a; lia). lia. }
+  assert (Hsz : (length sent * (4 + l) <= 1024)%nat) by nia.
+  exists (flat_map (ext_field ext_cookie) sent).
+  split.
+  - unfold nts_response_plain. unfold cookies at 1. cbv iota beta. fold cookies. fold l. fold n. rewrite <- Hsent.
+    replace (repeat 0 (length sent * (4 + l)), 0%nat) with (stof [] (repeat 0 (length sent * (4 + l)))) by reflexivity.
+    rewrite pack_all_st by (rewrite repeat_length; lia).
+    unfold stof. cbn [app]. rewrite Hflen, skipn_all2 by (rewrite repeat_length; lia). rewrite app_nil_r. reflexivity.
+  - split; [reflexivity|].
+    replace (length (flat_map (ext_field ext_cookie) sent)) with (length sent + (length sent * (3 + l)))%nat by lia.
+    apply (walk_cookies sent _ [] _ acc); [reflexivity | lia |].
+    rewrite Forall_forall in *. intros x Hx. rewrite (Hall' x Hx). exact Hl.
+Qed.
+
